@@ -254,9 +254,31 @@ pub fn child_main(path: &str) -> i32 {
         }
     }
     let no_std = matches!(j.get("no_std"), Some(J::Bool(true)));
+    if let Some(dir) = j.get("disk_dir").and_then(|x| x.as_str()) {
+        // the project lives on disk (error rendering reads the files again)
+        let (disk, main) = materialise(std::path::Path::new(dir), &files);
+        let r = sy::compile_files(&disk, &main, &CompileOpts { no_std, require: None, fuel: Some(crate::rel::CAMPAIGN_FUEL) });
+        println!("{}", fingerprint(&r));
+        return 0;
+    }
     let r = sy::compile_files(&files, "main.sy", &CompileOpts { no_std, require: None, fuel: Some(crate::rel::CAMPAIGN_FUEL) });
     println!("{}", fingerprint(&r));
     0
+}
+
+/// write the project under `dir` (replacing what was there) and return it keyed by the on-disk paths
+fn materialise(dir: &std::path::Path, files: &Files) -> (Files, String) {
+    let _ = std::fs::remove_dir_all(dir);
+    let mut disk = Files::new();
+    for (k, v) in files {
+        let p = dir.join(k);
+        if let Some(parent) = p.parent() {
+            let _ = std::fs::create_dir_all(parent);
+        }
+        let _ = std::fs::write(&p, v);
+        disk.insert(p.display().to_string(), v.clone());
+    }
+    (disk, dir.join("main.sy").display().to_string())
 }
 
 impl Check for C16 {
@@ -312,6 +334,44 @@ impl Check for C16 {
             st.count("projects_rejected");
             let n: u64 = prints[0].split('|').count() as u64 - 1;
             st.maxi("errors_in_one_list", n);
+        }
+        // on-disk history: the SAME paths held another (invalid) project a moment ago in this process; the
+        // rendering of this project's errors must equal the one a fresh process produces for these paths
+        if index % 8 == 5 && !prints[0].starts_with("ok:") {
+            let dir = verif_root().join(".target").join("runs").join(format!("c16disk-{}", std::process::id()));
+            let mut earlier = Files::new();
+            earlier.insert("main.sy".into(), "// an earlier project at the same path\nfirst :: 1\nsecond :: 2\n\nstart :: fn do\n    print(first + \"s\")\n    print(third)\nend\n".into());
+            for k in files.keys() {
+                if k != "main.sy" {
+                    earlier.insert(k.clone(), "// earlier content\nz :: 1 +\n".into());
+                }
+            }
+            let (d0, m0) = materialise(&dir, &earlier);
+            let _ = fingerprint(&sy::compile_files(&d0, &m0, &opts));
+            let (d1, m1) = materialise(&dir, &files);
+            let here = fingerprint(&sy::compile_files(&d1, &m1, &opts));
+            let spec = verif_root().join(".target").join("runs").join(format!("c16disk-{}-{}.json", std::process::id(), index));
+            let j = J::obj().with("files", J::Obj(files.iter().map(|(k, v)| (k.clone(), J::s(v.clone()))).collect())).with("no_std", J::Bool(no_std)).with("disk_dir", J::s(dir.display().to_string()));
+            if std::fs::write(&spec, j.to_string()).is_ok() {
+                if let Ok(exe) = std::env::current_exe() {
+                    if let Ok(out) = std::process::Command::new(&exe).arg("c16child").arg(&spec).output() {
+                        let fresh = String::from_utf8_lossy(&out.stdout).trim().to_string();
+                        if !fresh.is_empty() {
+                            st.count("on_disk_histories_compared_with_a_fresh_process");
+                            if fresh != here {
+                                st.violation(Violation {
+                                    signature: "nondeterministic:depends-on-earlier-compilation-of-the-same-paths".into(),
+                                    hazard: None,
+                                    case: index,
+                                    detail: J::obj().with("what", J::s(what)).with("files", J::Obj(files.iter().map(|(k, v)| (k.clone(), J::s(v.clone()))).collect())).with("after_an_earlier_project", J::s(here.chars().take(300).collect::<String>())).with("fresh_process", J::s(fresh.chars().take(300).collect::<String>())),
+                                });
+                            }
+                        }
+                    }
+                }
+                let _ = std::fs::remove_file(&spec);
+            }
+            let _ = std::fs::remove_dir_all(&dir);
         }
         // cross-process: 1 case in 8
         if index % 8 < 2 {
@@ -394,7 +454,7 @@ impl Check for C16 {
         }
         Finish {
             level: "exploration",
-            rule: "projects: valid generated programs extended with wide blobs/enums and a function full of computed-and-dropped pure expressions; invalid projects with 2-6 independent errors (in one blob, one enum, several blobs, one function, several functions, duplicate globals, several files, definitions colliding with preamble imports, unresolved names with equally close candidates). Each is compiled 8x in one process (every HashMap gets a fresh RandomState), with other projects of 1-4 files compiled in between (nothing of an earlier compilation may leak into the next), and, for 1 case in 4, 3x in fresh processes with different environment size and working directory. Fingerprint = Lua bytes, or the ordered list of (kind, file, span, Display, Debug) of the errors with ANSI colours stripped. Non-trivial: every project; distinct by content hash.".into(),
+            rule: "projects: valid generated programs extended with wide blobs/enums and a function full of computed-and-dropped pure expressions; invalid projects with 2-6 independent errors (in one blob, one enum, several blobs, one function, several functions, duplicate globals, several files, definitions colliding with preamble imports, unresolved names with equally close candidates). Each is compiled 8x in one process (every HashMap gets a fresh RandomState), with other projects of 1-4 files compiled in between (nothing of an earlier compilation may leak into the next), and, for 1 case in 4, 3x in fresh processes with different environment size and working directory; for 1 invalid project in 4 the project is also written to disk paths that held another invalid project a moment earlier in the same process, and its rendered errors (which read the files) must equal those of a fresh process. Fingerprint = Lua bytes, or the ordered list of (kind, file, span, Display, Debug) of the errors with ANSI colours stripped. Non-trivial: every project; distinct by content hash.".into(),
             extra: J::obj(),
             assumptions: vec!["colour codes are environment-controlled by design and are stripped".into()],
             exhaustive: false,
